@@ -225,6 +225,13 @@ fn run(a: &Args) {
         ];
         let plan = json!({"version": "1.4", "revisions": [{"objects": objects, "free": [], "xref": "table", "trailer": [["Root", {"ref": [9, 0]}]]}]});
         bases.push(("compact".to_string(), crate::synth::build(&plan).bytes));
+        // the same file whose first content stream CONTAINS what looks like an object (a newer catalog, an object header in a
+        // string): stream data is not file structure, a header scan must not harvest it
+        let mut objects2 = plan["revisions"][0]["objects"].as_array().unwrap().clone();
+        objects2[2] = json!({"n": 4, "g": 0, "dict": {"d": []},
+            "data": b"0 0 m 10 10 l S\n(12 0 obj) Tj\n9 0 obj\n<</Type/Catalog/Pages 99 0 R/Decoy true>>\nendobj\n3 0 obj\n<</Type/Page/Decoy true>>\nendobj\n".to_vec(), "filter": null});
+        let plan2 = json!({"version": "1.4", "revisions": [{"objects": objects2, "free": [], "xref": "table", "trailer": [["Root", {"ref": [9, 0]}]]}]});
+        bases.push(("decoy".to_string(), crate::synth::build(&plan2).bytes));
     }
     let mut case = 0usize;
     for (bi, (bname, base)) in bases.iter().enumerate() {
